@@ -40,8 +40,8 @@ extern "C" void AnnotateIgnoreWritesEnd(const char*, int);
 #else
 #define TSAN_ACQ(p) ((void)0)
 #define TSAN_REL(p) ((void)0)
-#define HASH_BEGIN() ((void)0)
-#define HASH_END() ((void)0)
+#define HASH_BEGIN() do { if (vomp::lset::ignore) vomp::lset::ignore(+1); } while (0)
+#define HASH_END() do { if (vomp::lset::ignore) vomp::lset::ignore(-1); } while (0)
 #endif
 
 namespace vomp {
@@ -201,6 +201,7 @@ static pthread_mutex_t g_real_ws = PTHREAD_MUTEX_INITIALIZER;
 static void* thread_main(void* arg) {
     int me = (int)(long)arg;
     tl_tid = me; tl_team = g_nthr; tl_in_region = 1; tl_single_count = 0; tl_ws_count = g_ws_preinit ? 1 : 0;
+    if (lset::thread_begin) lset::thread_begin(me);
     if (g_mode == MODE_EXPLORE) wait_for_baton(me);
     g_thr[me].fn(g_thr[me].data);
     if (g_mode == MODE_EXPLORE) {
@@ -230,11 +231,13 @@ static void run_region(void (*fn)(void*), void* data) {
     if (g_mode == MODE_FREE) { pthread_barrier_init(&g_real_barrier, nullptr, (unsigned)T); g_real_barrier_ok = true; }
     for (int t = 0; t < T; t++) pthread_create(&g_thr[t].th, nullptr, thread_main, (void*)(long)t);
     if (g_mode == MODE_EXPLORE) {
+        if (lset::region_begin) lset::region_begin(T);
         int first = choose(-1, "region_start");
         resume(first);
         while (g_master_go.load(std::memory_order_acquire) == 0) futex_wait(&g_master_go, 0);
     }
     for (int t = 0; t < T; t++) pthread_join(g_thr[t].th, nullptr);
+    if (lset::region_end) lset::region_end();
     if (g_real_barrier_ok) { pthread_barrier_destroy(&g_real_barrier); g_real_barrier_ok = false; }
     g_ws_preinit = false;
     g_region_active = false; g_running = -1; g_nthr = 0;
@@ -252,6 +255,7 @@ bool deadlocked() { return g_deadlock; }
 bool diverged() { return g_diverged; }
 void sched_point(const char* site) { point(site); }
 int requested_threads() { return g_requested_threads; }
+int running_tid() { return (g_mode == MODE_EXPLORE && g_region_active) ? g_running : -1; }
 
 } // namespace vomp
 
@@ -281,6 +285,7 @@ void GOMP_barrier() {
     int alive = 0; for (int t = 0; t < g_nthr; t++) if (g_thr[t].state != 3) alive++;
     if (++g_barrier_arrived >= alive) {                    // the last one to arrive releases the others and goes on
         g_barrier_arrived = 0; for (int t = 0; t < g_nthr; t++) if (g_thr[t].state == 4) g_thr[t].state = 1;
+        if (lset::epoch) lset::epoch();
         TSAN_ACQ(&barrier_tag); point("barrier_release"); return; }
     g_thr[me].state = 4; g_thr[me].site = "barrier_wait";
     int nxt = choose(-1, "blocked_at_barrier");
@@ -337,13 +342,13 @@ static void lock_acquire(const void* addr, const char* site) {
             l = lock_ent(addr);
             if (g_deadlock) break;
         }
-        l->owner = me;
+        l->owner = me; if (lset::lock) lset::lock(me, addr);
     }
 }
 static void lock_release(const void* addr, const char* site) {
     if (g_mode == MODE_EXPLORE && g_region_active) {
         LockEnt* l = lock_ent(addr);
-        l->owner = -1;
+        l->owner = -1; if (lset::unlock) lset::unlock(tl_tid, addr);
         point(site);                       // scheduling point after the release
     }
 }
@@ -357,8 +362,8 @@ void GOMP_critical_end() {
     lock_release(&g_critical_tag, "critical_end");
 }
 static pthread_mutex_t g_real_atomic = PTHREAD_MUTEX_INITIALIZER;
-void GOMP_atomic_start() { if (g_mode == MODE_FREE) pthread_mutex_lock(&g_real_atomic); else if (g_mode == MODE_EXPLORE) TSAN_ACQ(&g_real_atomic); }
-void GOMP_atomic_end() { if (g_mode == MODE_FREE) pthread_mutex_unlock(&g_real_atomic); else if (g_mode == MODE_EXPLORE) TSAN_REL(&g_real_atomic); }
+void GOMP_atomic_start() { if (g_mode == MODE_FREE) pthread_mutex_lock(&g_real_atomic); else if (g_mode == MODE_EXPLORE) { TSAN_ACQ(&g_real_atomic); if (lset::lock && g_region_active) lset::lock(tl_tid, &g_real_atomic); } }
+void GOMP_atomic_end() { if (g_mode == MODE_FREE) pthread_mutex_unlock(&g_real_atomic); else if (g_mode == MODE_EXPLORE) { TSAN_REL(&g_real_atomic); if (lset::unlock && g_region_active) lset::unlock(tl_tid, &g_real_atomic); } }
 
 // OpenMP locks: keyed by address in a side table.  The repository copies `node` objects (and with them the lock
 // bytes) and default-constructed nodes never call omp_init_lock; libgomp tolerates this because its lock is a plain
